@@ -319,3 +319,264 @@ Qed.
 
 Lemma lines_from_bom : forall x cur, lines_from cur (bom ++ x) = lines_from (cur ++ bom) x.
 Proof. intros. apply lines_from_plain. reflexivity. Qed.
+
+(* ================= the same statements about the model ================= *)
+
+Lemma feed_lines_eq x : feed_lines x = (spec_lines x, add_total 0 (N.of_nat (List.length x))).
+Proof. unfold feed_lines. rewrite feed_lines_res_spec. reflexivity. Qed.
+
+Lemma lines_crlf x : no_cr x = true -> lines (to_crlf x) = lines x.
+Proof. intro H. rewrite !lines_spec. apply lines_from_crlf. exact H. Qed.
+
+Lemma lines_cr x : no_cr x = true -> lines (to_cr x) = lines x.
+Proof. intro H. rewrite !lines_spec. apply lines_from_cr. exact H. Qed.
+
+Lemma lines_final_nl x : x <> [] -> ends_nl x = false -> lines (add_final_nl x) = lines x.
+Proof.
+  intros Hne He. rewrite !lines_spec. unfold add_final_nl, spec_lines.
+  apply (lines_from_final_nl_aux (List.length x)); [lia|exact He|left; exact Hne].
+Qed.
+
+(* the side condition cannot be dropped: the empty text has no line, a lone line feed has one *)
+Lemma lines_final_nl_empty_differs : lines (add_final_nl []) = [[]] /\ lines [] = [].
+Proof. split; reflexivity. Qed.
+
+Lemma lines_nul x : lines (nul_to_fffd x) = lines x.
+Proof. rewrite !lines_spec. apply lines_from_nul. Qed.
+
+Lemma lines_clean x : Forall (fun l => clean_line l = true) (lines x).
+Proof. rewrite lines_spec. apply lines_from_clean. reflexivity. Qed.
+
+(* process_line always appends the line feed: no slice it is handed ends in a line-end character *)
+Lemma clean_line_last l b : clean_line l = true -> last_byte l = Some b -> is_line_end_char b = false.
+Proof.
+  unfold last_byte, clean_line. intros Hc Hl.
+  assert (In b l) as Hin.
+  { apply in_rev. destruct (rev l); [discriminate|]. inversion Hl; subst. left. reflexivity. }
+  rewrite forallb_forall in Hc. specialize (Hc b Hin). unfold clean_byte in Hc.
+  rewrite line_end_is_cr_lf.
+  destruct (beqb b CR); [discriminate|]. destruct (beqb b LF); [discriminate|]. reflexivity.
+Qed.
+
+Lemma norm_line_clean l : clean_line l = true -> norm_line l = l ++ [LF].
+Proof.
+  intro Hc. unfold norm_line. destruct (last_byte l) as [b|] eqn:E; [|reflexivity].
+  rewrite (clean_line_last l b Hc E). reflexivity.
+Qed.
+
+Lemma norm_lines x : map norm_line (lines x) = map (fun l => l ++ [LF]) (lines x).
+Proof.
+  pose proof (lines_clean x) as H. induction H as [|l r Hl Hr IH]; [reflexivity|].
+  simpl. rewrite IH, norm_line_clean by exact Hl. reflexivity.
+Qed.
+
+(* ---- total_size and the reference budget ---- *)
+Lemma length_to_crlf x : List.length (to_crlf x) = (List.length x + count_lf x)%nat.
+Proof.
+  induction x as [|b x IH]; [reflexivity|].
+  unfold to_crlf, count_lf in *. cbn [flat_map filter]. destruct (beqb b LF); simpl in *; lia.
+Qed.
+
+Lemma length_to_cr x : List.length (to_cr x) = List.length x.
+Proof. apply map_length. Qed.
+
+Lemma length_add_final_nl x : List.length (add_final_nl x) = S (List.length x).
+Proof. unfold add_final_nl. rewrite app_length. simpl. lia. Qed.
+
+Lemma length_nul_to_fffd x : List.length (nul_to_fffd x) = (List.length x + 2 * count_nul x)%nat.
+Proof.
+  induction x as [|b x IH]; [reflexivity|].
+  unfold nul_to_fffd, count_nul in *. cbn [flat_map filter]. destruct (beqb b NUL); simpl in *; lia.
+Qed.
+
+Lemma total_size_small x :
+  (N.of_nat (List.length x) <= ref_budget_floor)%N -> total_size x = N.of_nat (List.length x).
+Proof.
+  intro H. apply total_size_spec. unfold ref_budget_floor, usize_max in *. lia.
+Qed.
+
+Lemma budget_not_binding x :
+  (N.of_nat (List.length x) <= ref_budget_floor)%N -> max_ref_size (total_size x) = ref_budget_floor.
+Proof.
+  intro H. rewrite total_size_small by exact H. unfold max_ref_size.
+  destruct (ref_budget_floor <? N.of_nat (List.length x))%N eqn:E; [apply N.ltb_lt in E; lia|reflexivity].
+Qed.
+
+Lemma budget_same_under_floor x y :
+  (N.of_nat (List.length x) <= ref_budget_floor)%N -> (N.of_nat (List.length y) <= ref_budget_floor)%N ->
+  max_ref_size (total_size y) = max_ref_size (total_size x).
+Proof. intros Hx Hy. rewrite !budget_not_binding by assumption. reflexivity. Qed.
+
+Lemma total_size_crlf x :
+  (N.of_nat (List.length (to_crlf x)) <= usize_max)%N ->
+  total_size (to_crlf x) = (total_size x + N.of_nat (count_lf x))%N.
+Proof.
+  intro H. pose proof (length_to_crlf x) as L.
+  rewrite !total_size_spec by lia. rewrite L. lia.
+Qed.
+
+(* F18: above the floor the budget of the CRLF copy is larger *)
+Lemma repeat_bytes_length n b : List.length (repeat_bytes n b) = n.
+Proof. induction n; simpl; congruence. Qed.
+Lemma no_cr_repeat_lf n : no_cr (repeat_bytes n LF) = true.
+Proof. induction n; simpl; auto. Qed.
+Lemma count_lf_repeat_lf n : count_lf (repeat_bytes n LF) = n.
+Proof. induction n; [reflexivity|]. unfold count_lf in *. simpl. congruence. Qed.
+
+Lemma budget_crlf_differs :
+  exists x, no_cr x = true /\ max_ref_size (total_size (to_crlf x)) <> max_ref_size (total_size x).
+Proof.
+  exists (repeat_bytes (N.to_nat 100001) LF). split; [apply no_cr_repeat_lf|].
+  pose proof (length_to_crlf (repeat_bytes (N.to_nat 100001) LF)) as L.
+  rewrite count_lf_repeat_lf, repeat_bytes_length in L.
+  rewrite !total_size_spec; rewrite ?L, ?repeat_bytes_length; unfold usize_max; try lia.
+  unfold max_ref_size, ref_budget_floor.
+  destruct (100000 <? N.of_nat (N.to_nat 100001 + N.to_nat 100001))%N eqn:E1;
+  destruct (100000 <? N.of_nat (N.to_nat 100001))%N eqn:E2;
+  try apply N.ltb_lt in E1; try apply N.ltb_ge in E1; try apply N.ltb_lt in E2; try apply N.ltb_ge in E2; lia.
+Qed.
+
+(* ---- byte-order mark ---- *)
+Lemma lines_bom x :
+  lines (prepend_bom x) = match lines x with l :: r => (bom ++ l) :: r | [] => [bom] end.
+Proof.
+  rewrite !lines_spec. unfold prepend_bom, spec_lines. rewrite lines_from_bom. cbn [app].
+  rewrite <- (app_nil_r bom) at 1. apply lines_from_prefix. discriminate.
+Qed.
+
+Lemma first_line_prefix : forall x cur l r,
+  lines_from cur x = l :: r -> exists t, cur ++ nul_to_fffd x = l ++ t.
+Proof.
+  induction x as [|b x IH]; intros cur l r H.
+  - simpl in H. destruct cur; [discriminate|]. inversion H; subst. exists []. reflexivity.
+  - rewrite lines_from_cons in H. unfold nul_to_fffd. cbn [flat_map]. fold (nul_to_fffd x).
+    destruct (beqb b CR) eqn:Ecr.
+    { inversion H; subst. eexists. reflexivity. }
+    destruct (beqb b LF) eqn:Elf.
+    { inversion H; subst. eexists. reflexivity. }
+    destruct (beqb b NUL) eqn:En.
+    + destruct (IH _ _ _ H) as [t Ht]. exists t. rewrite <- Ht, <- app_assoc. reflexivity.
+    + destruct (IH _ _ _ H) as [t Ht]. exists t. rewrite <- Ht, <- app_assoc. reflexivity.
+Qed.
+
+Lemma has_bom_nul x : starts_with (nul_to_fffd x) bom = starts_with x bom.
+Proof.
+  unfold bom.
+  destruct x as [|b1 x]; [reflexivity|].
+  unfold nul_to_fffd. cbn [flat_map]. fold (nul_to_fffd x).
+  destruct (beqb b1 NUL) eqn:E1; [apply beqb_eq in E1; subst; reflexivity|].
+  cbn [app starts_with]. f_equal.
+  destruct x as [|b2 x]; [reflexivity|].
+  unfold nul_to_fffd. cbn [flat_map]. fold (nul_to_fffd x).
+  destruct (beqb b2 NUL) eqn:E2; [apply beqb_eq in E2; subst; reflexivity|].
+  cbn [app starts_with]. f_equal.
+  destruct x as [|b3 x]; [reflexivity|].
+  unfold nul_to_fffd. cbn [flat_map]. fold (nul_to_fffd x).
+  destruct (beqb b3 NUL) eqn:E3; [apply beqb_eq in E3; subst; reflexivity|].
+  cbn [app starts_with]. destruct (nul_to_fffd x); destruct x; reflexivity.
+Qed.
+
+Lemma first_line_no_bom x l r :
+  has_bom x = false -> lines x = l :: r -> starts_with l bom = false.
+Proof.
+  intros Hb Hl. rewrite lines_spec in Hl. unfold spec_lines in Hl.
+  destruct (first_line_prefix _ _ _ _ Hl) as [t Ht]. cbn [app] in Ht.
+  destruct (starts_with l bom) eqn:E; [|reflexivity].
+  apply starts_with_app in E. destruct E as [l' ->].
+  assert (starts_with (nul_to_fffd x) bom = true) as A.
+  { apply starts_with_app. exists (l' ++ t). rewrite Ht, app_assoc. reflexivity. }
+  rewrite has_bom_nul in A. unfold has_bom in Hb. congruence.
+Qed.
+
+Lemma starts_with_bom_snoc l : starts_with l bom = false -> starts_with (l ++ [LF]) bom = false.
+Proof.
+  unfold bom. destruct l as [|a [|b [|c l]]]; cbn [app starts_with]; intro H.
+  - reflexivity.
+  - rewrite andb_false_r. reflexivity.
+  - rewrite !andb_false_r. reflexivity.
+  - exact H.
+Qed.
+
+Lemma seen_lines_bom x :
+  x <> [] -> has_bom x = false -> seen_lines (prepend_bom x) = seen_lines x.
+Proof.
+  intros Hne Hb. unfold seen_lines. rewrite lines_bom.
+  pose proof (lines_clean x) as Hc.
+  destruct (lines x) as [|l r] eqn:El.
+  - exfalso. rewrite lines_spec in El. unfold spec_lines in El.
+    destruct x as [|b x']; [contradiction|]. rewrite lines_from_cons in El.
+    destruct (beqb b CR); [discriminate|]. destruct (beqb b LF); [discriminate|].
+    destruct (beqb b NUL).
+    + pose proof (lines_from_prefix x' fffd [] ltac:(discriminate)) as P. rewrite app_nil_r in P.
+      change ([] ++ fffd) with fffd in El. rewrite P in El. destruct (lines_from [] x'); discriminate.
+    + pose proof (lines_from_prefix x' [b] [] ltac:(discriminate)) as P. rewrite app_nil_r in P.
+      change ([] ++ [b]) with [b] in El. rewrite P in El. destruct (lines_from [] x'); discriminate.
+  - inversion Hc as [|? ? Hl Hr]; subst.
+    pose proof (first_line_no_bom x l r Hb El) as Hnb.
+    assert (clean_line (bom ++ l) = true) as Hcb by (apply clean_line_app; [reflexivity|exact Hl]).
+    rewrite (norm_line_clean _ Hcb), (norm_line_clean _ Hl).
+    f_equal.
+    assert (bom_offset 0 ((bom ++ l) ++ [LF]) = 3%N) as O1.
+    { unfold bom_offset. rewrite bom_bytes_is_bom.
+      assert (starts_with ((bom ++ l) ++ [LF]) bom = true) as S1
+        by (apply starts_with_app; exists (l ++ [LF]); rewrite app_assoc; reflexivity).
+      rewrite S1.
+      assert ((bom_min_len <=? N.of_nat (List.length ((bom ++ l) ++ [LF])))%N = true) as L1.
+      { apply N.leb_le. unfold bom_min_len. rewrite !app_length. unfold bom. cbn [List.length]. lia. }
+      rewrite L1. reflexivity. }
+    assert (bom_offset 0 (l ++ [LF]) = 0%N) as O2.
+    { unfold bom_offset. rewrite bom_bytes_is_bom, (starts_with_bom_snoc l Hnb), andb_false_r. reflexivity. }
+    rewrite O1, O2. rewrite <- app_assoc. reflexivity.
+Qed.
+
+(* without the side conditions the statement is false of the model *)
+Lemma seen_lines_bom_on_bom_refuted :
+  exists x, x <> [] /\ has_bom x = true /\ seen_lines (prepend_bom x) <> seen_lines x.
+Proof. exists bom. split; [discriminate|]. split; [reflexivity|]. vm_compute. discriminate. Qed.
+
+Lemma seen_lines_bom_empty : seen_lines (prepend_bom []) = [[LF]] /\ seen_lines [] = [].
+Proof. split; reflexivity. Qed.
+
+(* ================= factorisation: whatever the rest of the parser does with the lines and the budget ================= *)
+(* parse_document hands the text to feed exactly once and process_line is called from feed and finish only
+   (translator item `feed` checks both), so everything after the splitter is a function of the sequence of
+   lines and of max_ref_size(total_size).  `rest` stands for that function; nothing is assumed about it. *)
+Definition pipeline {A : Type} (rest : list bytes -> N -> A) (x : bytes) : A :=
+  rest (lines x) (max_ref_size (total_size x)).
+
+Lemma le_floor_trans (a b : nat) : (a <= b)%nat -> (N.of_nat b <= ref_budget_floor)%N -> (N.of_nat a <= ref_budget_floor)%N.
+Proof. unfold ref_budget_floor. lia. Qed.
+
+Lemma factor_crlf A (rest : list bytes -> N -> A) x :
+  no_cr x = true -> (N.of_nat (List.length (to_crlf x)) <= ref_budget_floor)%N ->
+  pipeline rest (to_crlf x) = pipeline rest x.
+Proof.
+  intros H L. unfold pipeline. rewrite (lines_crlf x H).
+  rewrite (budget_same_under_floor x (to_crlf x)); [reflexivity| |exact L].
+  apply (le_floor_trans _ _ (ltac:(rewrite length_to_crlf; lia) : (List.length x <= List.length (to_crlf x))%nat) L).
+Qed.
+
+Lemma total_size_cr x : total_size (to_cr x) = total_size x.
+Proof. unfold total_size. rewrite !feed_lines_eq. simpl. rewrite length_to_cr. reflexivity. Qed.
+
+Lemma factor_cr A (rest : list bytes -> N -> A) x :
+  no_cr x = true -> pipeline rest (to_cr x) = pipeline rest x.
+Proof. intros H. unfold pipeline. rewrite (lines_cr x H), total_size_cr. reflexivity. Qed.
+
+Lemma factor_final_nl A (rest : list bytes -> N -> A) x :
+  x <> [] -> ends_nl x = false -> (N.of_nat (List.length (add_final_nl x)) <= ref_budget_floor)%N ->
+  pipeline rest (add_final_nl x) = pipeline rest x.
+Proof.
+  intros Hne He L. unfold pipeline. rewrite (lines_final_nl x Hne He).
+  rewrite (budget_same_under_floor x (add_final_nl x)); [reflexivity| |exact L].
+  apply (le_floor_trans _ _ (ltac:(rewrite length_add_final_nl; lia) : (List.length x <= List.length (add_final_nl x))%nat) L).
+Qed.
+
+Lemma factor_nul A (rest : list bytes -> N -> A) x :
+  (N.of_nat (List.length (nul_to_fffd x)) <= ref_budget_floor)%N ->
+  pipeline rest (nul_to_fffd x) = pipeline rest x.
+Proof.
+  intros L. unfold pipeline. rewrite (lines_nul x).
+  rewrite (budget_same_under_floor x (nul_to_fffd x)); [reflexivity| |exact L].
+  apply (le_floor_trans _ _ (ltac:(rewrite length_nul_to_fffd; lia) : (List.length x <= List.length (nul_to_fffd x))%nat) L).
+Qed.
